@@ -388,7 +388,10 @@ mut("c17-read-crlf-reverted", "C17", "seqio/fasta.go", "\tfor i, line := range l
 mut("c17-read-desc-child", "C17", "seqio/fasta.go", "desc := string(result.Children[1].Token)", "desc := string(result.Children[2].Token)", ["FASTA-READ|seqio.FastaParser|description"])
 mut("c17-desc-upper", "C17", "seqio/fasta.go", "f := Fasta{info, v.Bytes()}", "f := Fasta{info, bytes.ToUpper(v.Bytes())}", ["FASTA-DESC|seqio.FastaWriter.WriteSeq|Fasta#1"])
 mut("c17-gbf-region-zero-based", "C17", "seqio/genbank.go", 'return fmt.Sprintf("%s:%d-%d %s", gbf.Version, head+1, tail, gbf.Definition)', 'return fmt.Sprintf("%s:%d-%d %s", gbf.Version, head, tail, gbf.Definition)', ["FASTA-DESC|seqio.GenBankFields.String|return#1"])
-mut("c17-silent-replace-minus-one", "C17", "seqio/fasta.go", 'desc := strings.ReplaceAll(f.Desc, "\\n", " ")', 'desc := strings.Replace(f.Desc, "\\n", " ", -1)', silent=True)
+mut("c17-silent-replace-minus-one", "C17", "seqio/fasta.go", 'desc := strings.NewReplacer("\\n", " ", "\\r", " ").Replace(f.Desc)', 'desc := strings.Replace(strings.Replace(f.Desc, "\\n", " ", -1), "\\r", " ", -1)', silent=True)
+mut("c17-desc-carriage-return-reverted", "C17", "seqio/fasta.go", 'desc := strings.NewReplacer("\\n", " ", "\\r", " ").Replace(f.Desc)', 'desc := strings.ReplaceAll(f.Desc, "\\n", " ")', ["FASTA-WRITE|seqio.Fasta.WriteTo|description"], note="the repaired defect, reintroduced")
+mut("c17-desc-silent-nested-replaceall", "C17", "seqio/fasta.go", 'desc := strings.NewReplacer("\\n", " ", "\\r", " ").Replace(f.Desc)', 'desc := strings.ReplaceAll(strings.ReplaceAll(f.Desc, "\\r", " "), "\\n", " ")', silent=True)
+mut("c17-desc-replacer-breaks-line", "C17", "seqio/fasta.go", 'desc := strings.NewReplacer("\\n", " ", "\\r", " ").Replace(f.Desc)', 'desc := strings.NewReplacer("\\n", " ", "\\r", "\\n").Replace(f.Desc)', ["FASTA-WRITE|seqio.Fasta.WriteTo|description"])
 mut("c17-silent-trimright-cr", "C17", "seqio/fasta.go", "lines[i] = bytes.TrimSuffix(line, []byte{'\\r'})", 'lines[i] = bytes.TrimRight(line, "\\r")', silent=True)
 
 # C01
@@ -853,6 +856,10 @@ mut("c03-complete-wrappers-silent-local", "C03", "location.go", "\tcase Compleme
 mut("c06-idem-point-between-replaces", "C06", "location.go", "\t\tcase Between:\n\t\t\tif int(v+1) == int(u) {\n\t\t\t\treturn\n\t\t\t}\n\t\tcase Point:\n\t\t\tif v == u {\n\t\t\t\treturn\n\t\t\t}\n", "\t\tcase Between:\n\t\t\tif int(v+1) == int(u) {\n\t\t\t\treturn\n\t\t\t}\n\t\tcase Point:\n\t\t\tif v == u {\n\t\t\t\tll.Data = u\n\t\t\t\treturn\n\t\t\t}\n", silent=True, note="replacing a point by an equal point changes nothing")
 mut("c06-idem-silent-guard-mirrored", "C06", "location.go", "\t\tcase Point:\n\t\t\tif int(v) == int(u) {\n\t\t\t\tll.Data = u\n\t\t\t\treturn\n\t\t\t}\n", "\t\tcase Point:\n\t\t\tif int(u) == int(v) {\n\t\t\t\tll.Data = u\n\t\t\t\treturn\n\t\t\t}\n", silent=True, note="the same guard spelled the other way round has the same fingerprint: still the known finding, nothing new")
 mut("c06-idem-between-ranged-at-end", "C06", "location.go", "\t\tcase Ranged:\n\t\t\tif int(v) == u.Start {\n\t\t\t\tll.Data = u\n\t\t\t\treturn\n\t\t\t}\n\t\t}\n\n\tcase Point:\n", "\t\tcase Ranged:\n\t\t\tif int(v) == u.Start || int(v) == u.End {\n\t\t\t\tll.Data = u\n\t\t\t\treturn\n\t\t\t}\n\t\t}\n\n\tcase Point:\n", ["PUSH-IDEMPOTENT|gts.(*LocationList).Push|Between+Ranged|unreduced="], note="a site is also swallowed by a range that ends at it: more triples are left unreduced than the known finding lists")
+
+mut("c19-filter-delegate-silent-local", "C19", "feature.go", "\t\treturn LocationOverlap(f.Loc, lower, upper)\n", "\t\tloc := f.Loc\n\t\treturn LocationOverlap(loc, lower, upper)\n", silent=True)
+mut("c14-raise-silent-via-variable", "C14", "cmd/gts/search.go", "\t\t\treturn ctx.Raise(fmt.Errorf(\"query sequence file %q does not contain a sequence\", *queryPath))\n", "\t\t\tfailure := ctx.Raise(fmt.Errorf(\"query sequence file %q does not contain a sequence\", *queryPath))\n\t\t\treturn failure\n", silent=True)
+mut("c14-raise-variable-not-returned", "C14", "cmd/gts/search.go", "\t\t\treturn ctx.Raise(fmt.Errorf(\"query sequence file %q does not contain a sequence\", *queryPath))\n", "\t\t\tfailure := ctx.Raise(fmt.Errorf(\"query sequence file %q does not contain a sequence\", *queryPath))\n\t\t\t_ = failure\n", ["RAISE-RETURNED|main.searchFunc|Raise#2"])
 
 # ---------------------------------------------------------------- refactoring round 3
 mut("c02-normalise-silent-tagless-switch", "C02", "location.go",
